@@ -153,6 +153,7 @@ impl<'a, L> Engine<'a, L> {
         for inode in list_seeds {
             self.mark_list_node(inode);
         }
+        self.unmark_unrooted_list_nodes();
         // check that candidate compound literals are indeed compound literels
         if self.options.rdf_direction() == Some(RdfDirection::CompoundLiteral) {
             let mut compound_literals = std::mem::take(&mut self.compound_literals);
@@ -199,6 +200,29 @@ impl<'a, L> Engine<'a, L> {
                     }
                 }
             }
+        }
+    }
+
+    /// List nodes are only rendered through their parent;
+    /// those whose chain of parents loops back on itself (through rdf:first)
+    /// would never be rendered, so one node of each such loop is unmarked.
+    fn unmark_unrooted_list_nodes(&mut self) {
+        let mut rooted: HashSet<Box<str>> = HashSet::new();
+        let ids: Vec<Box<str>> = self.list_node.keys().cloned().collect();
+        for id in ids {
+            let mut path: HashSet<Box<str>> = HashSet::new();
+            let mut cur = id;
+            while !rooted.contains(&cur) {
+                let Some(iparent) = self.list_node.get(&cur) else {
+                    break;
+                };
+                if !path.insert(cur.clone()) {
+                    self.list_node.remove(&cur);
+                    break;
+                }
+                cur = self.gs_id[*iparent].1.clone();
+            }
+            rooted.extend(path);
         }
     }
 
